@@ -271,6 +271,13 @@ def gen_case(rng) -> dict[str, Any]:
 
 
 HAND = [
+    # values the engine makes itself held in local variables (a strict undefined that is never used, the loop helpers, a block drop, a macro's
+    # arguments): measuring them for the namespace limit must not use them
+    {"source": "{% assign x = nosuchthing %}ok", "partials": {}, "undefined": "strict"}, {"source": "{% assign x = h.nope.deeper %}{% capture y %}{% endcapture %}ok{{ y }}", "partials": {}, "undefined": "strict"},
+    {"source": "{% for i in (1..3) %}{% assign lp = forloop %}{{ i }}{% endfor %}{{ lp.length }}", "partials": {}}, {"source": "{% tablerow i in (1..3) %}{% assign lp = tablerowloop %}{{ i }}{% endtablerow %}", "partials": {}},
+    {"source": "{% for i in (1..2) %}{% for j in (1..2) %}{% assign pl = forloop.parentloop %}{{ j }}{% endfor %}{% endfor %}", "partials": {}},
+    {"source": "{% macro m %}{% assign a = args %}{% assign k = kwargs %}{{ a | size }}{{ k | size }}{% endmacro %}{% call m 1, 2, z: 3 %}", "partials": {}},
+    {"source": "{% block b %}{% assign bl = block %}x{% endblock %}", "partials": {}}, {"source": "{% assign r = (1..5) %}{% assign e = empty %}{% assign n = nil %}{{ r | size }}", "partials": {}},
     {"source": "{% for i in (1..3) %}{% for j in (1..4) %}{{ i }}{{ j }}{% endfor %}{% endfor %}", "partials": {}},
     {"source": "{% if true %}{% if true %}{% if true %}x{% endif %}{% endif %}{% endif %}", "partials": {}},
     {"source": "{% render 'a' %}", "partials": {"a": "a{% render 'b' %}", "b": "b{% render 'c' %}", "c": "c"}},
